@@ -589,6 +589,64 @@ pub fn run_c10(ctx: &mut Ctx) {
             ctx.violation(&sig, &detail, case_json(&graph_to_mods(&g, 8), 8));
         }
     }
+    // references to GENERATED vftable structs: every name below has a definition once the
+    // structs generated for `vftable` blocks are counted, and nothing embeds itself by value,
+    // so each program must build under every order in which the work list is attempted
+    {
+        let programs: Vec<(&str, &str)> = vec![
+            ("field-pointer-to-later-table", "pub type A { pub t: *const BVftable, }\npub type B { vftable { pub fn v(&self); }, }"),
+            ("signature-pointer-to-later-table", "pub type A { pub x: *const u8, }\nimpl A { #[address(0x1000)] pub fn f(&self, p: *const BVftable) -> *mut BVftable; }\npub type B { vftable { pub fn v(&self); }, }"),
+            ("two-owners-waiting-for-each-other", "pub type Foo { vftable { pub fn a(&self); }, pub x: *const u8, }\nimpl Foo { #[address(0x1000)] pub fn f(&self, p: *const BarVftable); }\npub type Bar { vftable { pub fn b(&self, q: *const FooVftable); }, pub t: *const FooVftable, }"),
+            ("three-owners-in-a-ring", "pub type A { vftable { pub fn a(&self); }, pub o: *const BVftable, }\npub type B { vftable { pub fn b(&self); }, pub o: *const CVftable, }\npub type C { vftable { pub fn c(&self) -> *const AVftable; }, }\nimpl A { #[address(0x1000)] pub fn f(&self, p: *const CVftable); }\nimpl B { #[address(0x1040)] pub fn f(&self) -> *const AVftable; }"),
+            ("embedded-type-points-to-embedders-table", "pub type Foo { vftable { pub fn f(&self); }, pub bar: Bar, }\npub type Bar { pub v: *const FooVftable, }"),
+            ("own-table-by-value", "pub type A { vftable { pub fn f(&self); pub fn g(&self); }, pub v: AVftable, }"),
+            ("own-table-behind-pointer", "pub type A { vftable { pub fn f(&self, t: *const AVftable); }, pub v: *const AVftable, }"),
+            ("table-of-base-by-name", "pub type B { vftable { pub fn f(&self); }, }\npub type D { #[base] pub base: B, pub t: *const BVftable, }\npub type U { pub d: D, pub t: [*const BVftable; 2], }"),
+            ("extern-value-of-table-pointer", "pub type B { vftable { pub fn f(&self); }, }\n#[address(0x7000)] pub extern g_table: *const BVftable;"),
+        ];
+        let mut built = 0u64;
+        for (name, text) in &programs {
+            let m = pyxis::parser::parse_str(text).unwrap_or_else(|e| panic!("C10 program {name} does not parse: {e:?}"));
+            for ptrw in [8usize, 4] {
+                for schedule in 0..12u64 {
+                    let mods: Mods = vec![(ItemPath::from("kg_m"), m.clone())];
+                    let mut rng = Rng::derive(seed, 0x10C0_0000 + schedule);
+                    let scheduler: Option<drive::Scheduler> = match schedule {
+                        0 => None,
+                        1 => Some(Box::new(|mut v: Vec<ItemPath>| {
+                            v.sort_by_key(|p| p.to_string());
+                            v
+                        })),
+                        2 => Some(Box::new(|mut v: Vec<ItemPath>| {
+                            v.sort_by_key(|p| p.to_string());
+                            v.reverse();
+                            v
+                        })),
+                        _ => Some(Box::new(move |mut v: Vec<ItemPath>| {
+                            v.sort_by_key(|p| p.to_string());
+                            for i in (1..v.len()).rev() {
+                                let j = rng.below(i + 1);
+                                v.swap(i, j);
+                            }
+                            v
+                        })),
+                    };
+                    ctx.eval();
+                    built += 1;
+                    let out = drive::build_modules(&mods, ptrw, Opts { scheduler, ..Default::default() });
+                    ctx.nontrivial(fnv(format!("generated-names{name}{ptrw}").as_bytes()));
+                    match out.result {
+                        Ok(_) => ctx.count("generated_name_programs_accepted", 1),
+                        Err(e) => {
+                            let sig = if e.stage == Stage::Panic { "C10/panic".to_string() } else { format!("C10/rejected-resolvable-program/generated-names/{name}") };
+                            ctx.violation(&sig, &format!("schedule {schedule}: {}", crate::verdict::one_line(&e.msg, 300)), case_json(&mods, ptrw));
+                        }
+                    }
+                }
+            }
+        }
+        ctx.count("generated_name_builds", built);
+    }
     // random
     let n = ctx.tier.pick(4000usize, 80_000);
     struct R {
